@@ -144,6 +144,15 @@ def draw_azimuths(rng, n_az):
     if rng.random() < 0.5:
         return [round(i * step, 3) for i in range(n_az)]
     vals = sorted(rng.sample([x * 0.5 for x in range(0, 360)], n_az))
+    if rng.random() < 0.25:
+        # azimuths need not have a short decimal representation: thirds, values a rounding error off a round number,
+        # neighbours closer than a micro-degree
+        j = rng.randrange(len(vals))
+        vals[j] = rng.choice([vals[j] + 1 / 3, vals[j] + 0.1 + 0.2, 22.499999999999996 + j, vals[j] + 1e-7 * (j + 1)])
+        if rng.random() < 0.4 and len(vals) >= 2:
+            k = (j + 1) % len(vals)
+            vals[k] = vals[j] + 3e-7
+        vals = sorted(set(vals)) if len(set(vals)) == len(vals) else vals
     if rng.random() < 0.4:
         rng.shuffle(vals)                          # azimuths need not be ascending
     return [float(v) for v in vals]
